@@ -584,7 +584,15 @@ Linear_Expression_Impl<Row>
                  Coefficient_traits::const_reference c1,
                  Coefficient_traits::const_reference c2,
                  dimension_type start, dimension_type end) {
-  Parma_Polyhedra_Library::linear_combine(row, y.row, c1, c2, start, end);
+  if (static_cast<const void*>(this) == static_cast<const void*>(&y)) {
+    // `y' is `*this' (e.g., e -= e): the row-level functions require
+    // distinct rows (a sparse row would be erased while it is walked).
+    const Row2 y_row(y.row);
+    Parma_Polyhedra_Library::linear_combine(row, y_row, c1, c2, start, end);
+  }
+  else {
+    Parma_Polyhedra_Library::linear_combine(row, y.row, c1, c2, start, end);
+  }
   PPL_ASSERT(OK());
 }
 
@@ -670,7 +678,14 @@ Linear_Expression_Impl<Row>
     else {
       PPL_ASSERT(c1 != 0);
       PPL_ASSERT(c2 != 0);
-      Parma_Polyhedra_Library::linear_combine(row, y.row, c1, c2, start, end);
+      if (static_cast<const void*>(this) == static_cast<const void*>(&y)) {
+        // `y' is `*this': the row-level functions require distinct rows.
+        const Row2 y_row(y.row);
+        Parma_Polyhedra_Library::linear_combine(row, y_row, c1, c2, start, end);
+      }
+      else {
+        Parma_Polyhedra_Library::linear_combine(row, y.row, c1, c2, start, end);
+      }
     }
   }
   PPL_ASSERT(OK());
